@@ -151,7 +151,7 @@ impl<'a> Gen<'a> {
     }
     /// `e` reached through a route that returns the very same heap value.
     fn alias_path(&mut self, e: E) -> E {
-        match self.rng.below(9) {
+        match self.rng.below(10) {
             0 => call(lam(&["x"], id("x")), vec![e]),
             1 => bin("into", e, lam(&["x"], id("x"))),
             2 => idx(E::List(vec![e]), num(0)),
@@ -159,6 +159,8 @@ impl<'a> Gen<'a> {
             4 => doblk(vec![], e),
             5 => dot(E::Rec(vec![RK::Static("k".into(), e)]), "k"),
             6 => call(E::Lam(vec![], Box::new(e)), vec![]),
+            // `via` applied to a non-list is a plain call: a function that hands the value back
+            7 => bin("via", E::Rec(vec![RK::Static("items".into(), e)]), lam(&["d"], dot(id("d"), "items"))),
             _ => e,
         }
     }
@@ -456,6 +458,12 @@ impl<'a> Gen<'a> {
                         6 => bin(*self.rng.pick(&["*", "-", "/", "%", "^", "+"]), target, self.small_num()),
                         7 => bin(*self.rng.pick(&["*", "-", "+"]), self.small_num(), target),
                         8 => bin(*self.rng.pick(&["+", "*"]), target, id(&l)),
+                        9 if self.rng.chance(1, 2) => {
+                            // a pipeline of two or three stages
+                            let s1 = bin("via", target, lam(&["x"], bin("*", id("x"), num(2))));
+                            let s2 = if self.rng.chance(1, 2) { bin("where", s1, lam(&["x"], bin(".>", id("x"), num(2)))) } else { bin("via", s1, lam(&["x"], bin("+", id("x"), num(1)))) };
+                            if self.rng.chance(1, 3) { bin("via", s2, E::Lam(vec![Arg::Req("x".into()), Arg::Req("i".into())], Box::new(bin("+", id("x"), id("i"))))) } else { s2 }
+                        }
                         9 => bin("via", target, lam(&["x"], bin("*", id("x"), num(2)))),
                         10 => bin("where", target, lam(&["x"], bin(".>", id("x"), num(1)))),
                         11 => call(id("map"), vec![target, lam(&["x"], bin("+", id("x"), num(1)))]),
@@ -1157,7 +1165,7 @@ pub fn execute(sc: &Scenario) -> Exec {
         Exec { outcomes, violation: model.violation.clone(), hash: model.history_hash(), stats: model.stats.clone(), clock_advance_ns: 0, snapshots: model.snapshots.clone() }
     });
     // profiling statistics are a process-global vector that grows with every call: drop them
-    blots_core::functions::clear_function_call_stats();
+    crate::session::trim_call_stats();
     ex.clock_advance_ns = seam.clock_advance_ns;
     ex.stats.add("clock_reads", seam.clock_reads);
     ex
